@@ -167,6 +167,13 @@ def run_case(case) -> core.Outcome:
                 if abs(Fraction(ma)) > 10**12 or (Fraction(ma) != 0 and abs(Fraction(ma)) < Fraction(1, 10**12)):
                     out.inconclusive = "float-range"
                     return out
+                # exponents of other numeric types are refused (TypeError); being refused must not
+                # change what the integer exponent does afterwards
+                for bad in (float(n), Decimal(n)):
+                    try:
+                        A**bad
+                    except TypeError:
+                        pass
                 r = a**n
                 check_result(r, tuple(x * n for x in da), "pow", dec)
             elif op == "root":
